@@ -93,6 +93,9 @@ class TokIO:
 
     # writing -----------------------------------------------------------------
     def put(self, tok):
+        if self.pos > len(self.toks):
+            # io.BytesIO would zero-fill the gap: the stream no longer holds what was written
+            raise Misaligned("write beyond the end of the stream (position left behind a truncate)")
         if self.pos != len(self.toks):
             raise NotImplementedError("overwrite in the middle of a token stream")
         self.toks.append(tok)
@@ -123,14 +126,12 @@ class TokIO:
             n = self.tell()
         if n == 0:
             self.toks = []
-            self.pos = 0
             return 0
         # truncate at a token boundary: keep the longest prefix whose size is n
         s = 0
         for i, t in enumerate(self.toks):
             if s == n:
-                self.toks = self.toks[:i]
-                self.pos = min(self.pos, i)
+                self.toks = self.toks[:i]  # like io.BytesIO, truncate does not move the stream position
                 return n
             s = s + tok_size(t)
         if s == n:
@@ -214,22 +215,37 @@ class SeqIn:
 
 
 class SeqOut:
-    """Write-only, non-seekable output: write(), flush(), seekable() -> False."""
+    """Write-only, non-seekable, BUFFERED output (a pipe or socket file object): write(), flush(),
+    seekable() -> False.  Data reach the other side only when flush() is called."""
 
     def __init__(self, tokio):
         self._t = tokio
+        self._pending = []
 
     def write(self, data):
-        return self._t.write(data)
+        if isinstance(data, TokBytes):
+            if len(data.toks):
+                self._pending.append(("raw", data))
+            return data.size()
+        if isinstance(data, (bytes, bytearray)):
+            if len(data):
+                self._pending.append(("raw", bytes(data)))
+            return len(data)
+        if isinstance(data, Packed):
+            self._pending.append(("raw", data))
+            return len(data)
+        raise TypeError(f"a bytes-like object is required, not '{type(data).__name__}'")
+
+    def put(self, tok):
+        self._pending.append(tok)
 
     def flush(self):
-        pass
+        for t in self._pending:
+            self._t.put(t)
+        self._pending = []
 
     def seekable(self):
         return False
-
-    def put(self, tok):
-        self._t.put(tok)
 
 
 class Packed:
